@@ -4,6 +4,7 @@ import (
 	"fmt"
 	"os"
 	"strings"
+	"testing"
 
 	"pgregory.net/rapid"
 	"vh/drv"
@@ -16,6 +17,7 @@ type C09Case struct {
 	Prog     *Prog    `json:"prog"`
 	PreFiles int      `json:"prefiles"` // pre-seeded fail files (all-zero words of various lengths)
 	Heavy    bool     `json:"heavy,omitempty"`
+	Hosted   bool     `json:"hosted,omitempty"` // also run through MakeCheck on a real *testing.T (of a binary without a test deadline)
 }
 
 type c09 struct{}
@@ -88,6 +90,7 @@ func (c09) Gen(dt *drv.T, c *Ctx) any {
 		p.Body = append(p.Body, &Stmt{Op: "ifinv", N: 0, Body: []*Stmt{genSig(dt, allSigKinds)}})
 	}
 	cs.Prog = p
+	cs.Hosted = cs.PreFiles == 0 && chance(dt, "hosted", 20)
 	return cs
 }
 
@@ -163,6 +166,30 @@ func (c09) Run(c *Ctx, csAny any) Outcome {
 	}
 	if cs.Heavy {
 		out.Classes = append(out.Classes, "heavy-run(millions-of-words)")
+	}
+	if cs.Hosted && cs.PreFiles == 0 {
+		// the same run through MakeCheck on a real *testing.T: same seed, same flags, so the same invocations and
+		// the same verdict (the shards run with -test.timeout 0: that T has no deadline)
+		cfg2 := cs.Cfg
+		cfg2.Verbose, cfg2.NoFailFile = false, true
+		x2 := NewInterp(cs.Prog)
+		applyCfg(cfg2)
+		res := Hosted(func(t *testing.T) { rapid.MakeCheck(x2.Prop)(t) })
+		resetFlags()
+		x2.Finish()
+		out.Classes = append(out.Classes, "also-through-MakeCheck")
+		if res.Panicked != nil {
+			out.Viol = violf("C09:panic-escaped", "panic escaped MakeCheck: %v", res.Panicked)
+			return out
+		}
+		if (res.Status == "failed") != obs.Failed {
+			out.Viol = violf("C09:makecheck-differs", "Check on a TB of our own: failed=%v; MakeCheck on a *testing.T with the same seed and flags: %s", obs.Failed, res.Status)
+			return out
+		}
+		if !cs.Cfg.Verbose && !obs.Failed && len(x2.Log) != len(x.Log) {
+			out.Viol = violf("C09:makecheck-differs", "Check on a TB of our own invoked the property %d times; MakeCheck on a *testing.T with the same seed and flags %d times (N=%d)", len(x.Log), len(x2.Log), N)
+			return out
+		}
 	}
 
 	// replay invocations come first; if one of them is falsified the run fails from the fail file (not this
